@@ -291,16 +291,22 @@ public:
 		unsigned rl = rhs.limbs();
 
 		clear();
-		std::uint64_t segment(0);
 		for (unsigned i = 0; i < ll; ++i) {
+			std::uint64_t segment(0);
 			for (unsigned j = 0; j < rl; ++j) {
 				segment += static_cast<std::uint64_t>(base.block(i)) * static_cast<std::uint64_t>(rhs.block(j));
 				segment += block(i + j);
 				setblock(i + j, static_cast<bt>(segment));
 				segment >>= bitsInBlock;
 			}
+			// the carry out of row i belongs to limb i + rl (and may ripple further), not to the start of the next row
+			for (unsigned k = i + rl; segment != 0; ++k) {
+				segment += block(k);
+				setblock(k, static_cast<bt>(segment));
+				segment >>= bitsInBlock;
+			}
 		}
-		if (segment != 0) setblock(ll + rl - 1, static_cast<bt>(segment));
+		remove_leading_zeros();
 		setsign(ls ^ rs);
 		return *this;
 	}
